@@ -22,7 +22,7 @@ CLAIMED = {
  "C03": ("T: trace validation of every End emission (probe + enq hooks) against spec/trace/Routing.tla with the connection kind promised by the API call",
          "for templates whose block boundaries are created by one API call each (shuffle, group_by, replication, broadcast, hash/broadcast joins, route, zip) TLC checks for every element leaving a block the fan-out per downstream block, same-index forwarding, key->replica functionality across producers and join sides, first-match routing and control broadcast, over local parallelism 1..4 and remote layouts",
          "replica sets are taken from worker-start events; delivery of what was enqueued is C02's link check", "4-C03"),
- "C19": ("M+R: TLC model check of comp/ExecGraph.tla over all small clusters; StreamContext::verif_execution_graph dumps of every host judged by TLC (GraphProps.tla)",
+ "C19": ("M+R: TLC model check of comp/ExecGraph.tla over all small clusters and of comp/Replication.tla (requirement algebra, every pair replayed through the real Replication::intersect); StreamContext::verif_execution_graph dumps of every host judged by TLC (GraphProps.tla)",
          "the scheduler rules as coded are model checked for every cluster up to MaxHosts x MaxCores and every replication requirement; for hundreds of (program, cluster) pairs the graph and address map derived by EVERY host of the real scheduler are checked by TLC against the property's rules and against each other",
          "the dump hook runs build_execution_graph + topology.build exactly as start_blocking does, without starting workers", "4-C19"),
  "C04": ("T: generated jobs (loops, side inputs, diamonds, empty and oversized inputs, tiny batches) under a watchdog; Link.tla leaves nothing in flight; each sink completes exactly once",
